@@ -215,3 +215,17 @@ func corpusIndex(name string) int {
 	}
 	return -1
 }
+
+func init() {
+	TSTypes["tInner"] = reflect.TypeOf(tInner{})
+	TSTypes["TExp"] = reflect.TypeOf(TExp{})
+	TSTypes["time.Time"] = reflect.TypeOf(time.Time{})
+	TSTypes["tTags"] = reflect.TypeOf(tTags{})
+	TSTypes["tBasic"] = reflect.TypeOf(tBasic{})
+	TSTypes["big.Int"] = reflect.TypeOf(big.Int{})
+	TSTypes["tNamedString"] = reflect.TypeOf(tNamedString(""))
+	TSTypes["tNamedInt"] = reflect.TypeOf(tNamedInt(0))
+	TSTypes["string"] = reflect.TypeOf("")
+	TSTypes["int"] = reflect.TypeOf(0)
+	TSTypes["slog.Level"] = reflect.TypeOf(slog.Level(0))
+}
